@@ -152,7 +152,7 @@ def job_chain(T, Fc, asc, stale):
             continue
         fr, back, sess = leaf.value
         dis = []
-        if back.shape != (T, Fc) or back.data.shape != (T, Fc) or len(back.fs) != Fc:
+        if back.shape != (T, Fc) or np.shape(back.data) != (T, Fc) or len(back.fs) != Fc:
             dis.append(z3.BoolVal(True))
         else:
             for i in range(T):
@@ -222,7 +222,7 @@ def job_chain_subband(T, n, asc):
             continue
         fr = leaf.value
         dis = []
-        if fr.shape != (T, n) or len(fr.fs) != n:
+        if fr.shape != (T, n) or len(fr.fs) != n or np.shape(fr.data) != (T, n):
             dis.append(z3.BoolVal(True))
         else:
             for j in range(n):
@@ -395,6 +395,45 @@ def job_subband_files(asc, ext):
     return recs
 
 
+def job_tiny_files(asc):
+    """single-row / single-channel frames (spectra, time series) through real .fil files (blimpy's HDF5 reader cannot
+    open such files, so filterbank only)"""
+    import logging
+    import shutil
+    import tempfile
+    import setigen as stg
+    logging.disable(logging.CRITICAL)
+    recs = []
+    tmp = tempfile.mkdtemp(prefix='c03_', dir='/var/tmp')
+    bad = []
+    try:
+        for (T, Fc) in ((1, 6), (5, 1), (1, 1)):
+            fr = stg.Frame(fchans=Fc, tchans=T, df=2.0, dt=1.0, fch1=1.0e9, ascending=asc, t_start=1.7e9, source_name='SRC', seed=0)
+            fr.data = (np.arange(T)[:, None] * 64.0 + np.arange(Fc)[None, :] + 1.0)
+            fn = os.path.join(tmp, 't.fil')
+            try:
+                fr.save_fil(fn)
+                g = stg.Frame(waterfall=fn)
+                from setigen import waterfall_utils as wu
+                d = wu.get_data(fn)
+                probs = []
+                if g.shape != (T, Fc) or np.shape(g.data) != (T, Fc) or not np.allclose(g.data, fr.data) or not np.allclose(g.fs, fr.fs, rtol=0, atol=2e-6):
+                    probs.append(f"reloaded as shape {g.shape} / data {np.shape(g.data)}")
+                if np.shape(d) != (T, Fc) or len(wu.get_fs(fn)) != Fc or len(wu.get_ts(fn)) != T:
+                    probs.append(f"helpers: get_data {np.shape(d)}, get_fs {len(wu.get_fs(fn))}, get_ts {len(wu.get_ts(fn))}")
+            except BaseException as e:
+                probs = [f"raised {type(e).__name__}: {e}"]
+            if probs:
+                bad.append(((T, Fc), probs))
+    finally:
+        shutil.rmtree(tmp, ignore_errors=True)
+    r, _ = core.check([RV(len(bad)) != 0])
+    recs.append(q(f"C03:tiny-files:{asc}", r, trivial=True, detail=str(bad[:2])))
+    if bad:
+        recs.append(cex('C03:tiny', f"single-row / single-channel frame: {bad[0]}", dict(fn='tiny', asc=asc), name=f"C03:tiny-files:{asc}"))
+    return recs
+
+
 # ---------------------------------------------------------------- (A) helper axes, delta model
 class HdrWf:
     """Waterfall stand-in for the helper functions"""
@@ -510,7 +549,13 @@ def replay_subband(p):
     return bool(msgs), '; '.join(msgs[:2]) or 'sub-band loads registered correctly'
 
 
-REPLAYS = {'history': replay_history, 'helpers': replay_helpers, 'subband': replay_subband}
+def replay_tiny(p):
+    recs = job_tiny_files(p['asc'])
+    bad = [r['what'] for r in recs if r['kind'] == 'cex']
+    return bool(bad), bad[0] if bad else 'tiny frames round-trip'
+
+
+REPLAYS = {'history': replay_history, 'helpers': replay_helpers, 'subband': replay_subband, 'tiny': replay_tiny}
 
 
 def main():
@@ -524,6 +569,10 @@ def main():
                       'histories: operation ORDER enumerated up to length 3 (+ final save/load), two geometries, both orientations and containers; contents concrete', 'Hz<->MHz scaling accounted exactly (1e-6*1e6 within 1 ulp of 1)']
     jobs = []
     for asc in (False, True):
+        for (T, Fc) in ((1, 1), (1, 3), (3, 1)):
+            jobs.append(('job_chain', (T, Fc, asc, None)))
+        jobs.append(('job_chain_subband', (1, 1, asc)))
+        jobs.append(('job_tiny_files', (asc,)))
         for (T, Fc) in ((2, 3), (3, 4)):
             jobs.append(('job_chain', (T, Fc, asc, None)))
             jobs.append(('job_chain', (T, Fc, asc, (T + 1, Fc + 4))))
